@@ -125,3 +125,173 @@ def C12(tier):
              "boundary-stored, INT64_MIN/MAX, overflow edges, random; slot = minimal width or a legal wider fixed width; each "
              "triple runs tagged/external x NoGrow/Grow against an __int128 model; non-trivial = overflow, refused or width change; "
              "distinct counted on the rel configuration only")
+
+
+# --------------------------------------------------------------------------- array codecs
+ARRAY_CODECS = ["delta.signed", "delta.unsigned", "for", "for.preanalysed", "for.nullmeta", "for.batch", "for.batchenc-scalardec",
+                "pfor.90", "pfor.95", "pfor.99", "group", "dict", "dict.into", "dict.withdict", "rle", "rle.maxsize",
+                "rle.header", "elias.gamma", "elias.delta", "bp128.32", "bp128.64", "bp128.delta32", "bp128.delta64"]
+ADAPTIVE_CODECS = ["adaptive.auto", "adaptive.DELTA", "adaptive.FOR", "adaptive.PFOR", "adaptive.DICT", "adaptive.BITMAP", "adaptive.TAGGED"]
+
+
+def C02(tier):
+    c = Check("C02", tier)
+    n = sz(tier, 23 * 40_000, 23 * 1_000_000)
+    count = per_shard(n)
+    p = [4097, sz(tier, 4000, 4000)]
+    runs = [run_workload(c, "array-rel", "rel", "drv_array", "c02", count, params=p)]
+    if HAVE_NATIVE:
+        runs.append(run_workload(c, "array-native", "native", "drv_array", "c02", count, params=p))
+    else:
+        c.notes.append("SIMD (-march=native) configuration skipped: cpu lacks avx2+avx512vl")
+    runs.append(run_workload(c, "array-asan", "asan", "drv_array", "c02", count, shards=sz(tier, [0, 1, 2, 3], [0, 1, 2, 3]), params=p))
+    runs.append(run_workload(c, "array-dbg", "dbg", "drv_array", "c02", count, shards=[4, 5], params=p))
+    runs.append(run_workload(c, "array-clang", "clang", "drv_array", "c02", count, shards=[6, 7], params=p))
+    c.compare_digests(runs, "encoded bytes of every array (scalar vs SIMD-enabled vs sanitised builds)")
+    for name in ARRAY_CODECS:
+        c.require("codec." + name, c.stat("codec." + name), 1000)
+    c.require("random_access_probes", c.stat("c02_random_access_probes"), 100000)
+    c.require("for_block_reads", c.stat("c02_block_reads"), 10000)
+    c.require("bp128_block32_cases", c.stat("c02_block32_cases"), 200)
+    c.assumptions = ["decoders are given the original element count (formats without a terminator)",
+                     "dictionary inputs have at most 2^20 distinct values (decoder's documented cap)"]
+    c.finish(c.stat("cases"), c.extra["per_cfg"].get("distinct_nontrivial@rel", 0),
+             "one (codec variant, array) per case, codec round-robin over %d variants; arrays from 15 content models x "
+             "boundary-straddling lengths (<=4097, 1 in 4000 cases 10k-68k); encoded bytes are copied to an exact-size heap "
+             "block (ASan) or followed by two different garbage tails (other configs) before decoding; distinct = "
+             "distinct (codec, array) hash, non-trivial = length>=2 and not all equal; counted on the rel configuration" % len(ARRAY_CODECS))
+
+
+def C03(tier):
+    c = Check("C03", tier)
+    n = sz(tier, 30 * 20_000, 30 * 700_000)
+    count = per_shard(n)
+    p = [2000, sz(tier, 3000, 1500)]
+    run_workload(c, "bound-asan", "asan", "drv_array", "c03", count, shards=sz(tier, list(range(8)), list(range(8))), params=p)
+    run_workload(c, "bound-rel", "rel", "drv_array", "c03", count, params=p)
+    run_workload(c, "bound-dbg", "dbg", "drv_array", "c03", count, shards=[8, 9], params=p)
+    nf = sz(tier, 300_000, 10_000_000)
+    run_workload(c, "float-bound-asan", "asan", "drv_float", "c03", per_shard(nf), shards=[0, 1, 2, 3])
+    run_workload(c, "float-bound-rel", "rel", "drv_float", "c03", per_shard(nf))
+    for name in ARRAY_CODECS + ADAPTIVE_CODECS:
+        c.require("codec." + name, c.stat("codec." + name), 500)
+    # the bound must actually be approached: per sizing function, max written/advertised >= 0.9
+    groups = {"varintDeltaMaxEncodedSize": ["delta.signed", "delta.unsigned"], "varintFORSize": ["for", "for.batch"],
+              "varintPFORSize": ["pfor.90", "pfor.95", "pfor.99"], "varintGroupSize": ["group"],
+              "varintDictEncodedSize": ["dict", "dict.withdict"], "varintRLESize": ["rle"],
+              "varintRLEMaxSize": ["rle.maxsize", "rle.header"], "varintEliasGammaMaxBytes": ["elias.gamma"],
+              "varintEliasDeltaMaxBytes": ["elias.delta"],
+              "varintBP128MaxBytes": ["bp128.32", "bp128.64", "bp128.delta32", "bp128.delta64"],
+              "varintAdaptiveMaxSize": ADAPTIVE_CODECS}
+    for fn, names in groups.items():
+        best = max(c.maxes.get("ratio_permille." + nm, 0) for nm in names)
+        c.require("approached." + fn, best, 900, "(max written/advertised, permille)")
+    c.require("ratio_permille.float", c.maxes.get("ratio_permille.float", 0), 300, "(varintFloatMaxEncodedSize is loose by construction: 9 bytes per exponent and 8 per value are both reserved)")
+    c.assumptions = ["advertised size per codec as listed in DESIGN.md C03 (max-size bounds and size predictors)"]
+    c.finish(c.stat("cases"), c.extra["per_cfg"].get("distinct_nontrivial@rel", 0),
+             "destination is exactly the advertised number of bytes (heap block under ASan, 4 KiB verified guard elsewhere); "
+             "inputs: general array mixture plus worst-case generators per bound (all-maximal values, alternating extremes, "
+             "exceptions at the highest indices, 64-bit-wide deltas, tiny arrays, sampler-aliasing periodic arrays >10000); "
+             "non-trivial = length>=2 and not all equal, distinct by (codec, array) hash on rel")
+
+
+def C13(tier):
+    c = Check("C13", tier)
+    n = sz(tier, 20 * 15_000, 20 * 600_000)
+    count = per_shard(n)
+    run_workload(c, "cap-asan", "asan", "drv_array", "c13", count, shards=sz(tier, list(range(8)), list(range(8))), params=[1000])
+    run_workload(c, "cap-asanR", "asanR", "drv_array", "c13", count, shards=[8, 9, 10, 11], params=[1000])
+    run_workload(c, "cap-rel", "rel", "drv_array", "c13", count, params=[1000])
+    capcodecs = ["for", "for.batch", "group", "dict.into", "rle", "rle.header", "elias.gamma", "elias.delta", "bp128.32", "bp128.64",
+                 "bp128.delta32", "bp128.delta64", "adaptive.DELTA", "adaptive.FOR", "adaptive.PFOR", "adaptive.DICT",
+                 "adaptive.BITMAP", "adaptive.TAGGED"]
+    for name in capcodecs:
+        c.require("codec." + name, c.stat("codec." + name), 500)
+    c.require("capacity0", c.stat("c13_capacity0"), 10000)
+    c.require("refused", c.stat("c13_refused"), 10000)
+    c.require("prefix", c.stat("c13_prefix"), 10000)
+    c.assumptions = ["oracle: r == 0, or r <= capacity and the first r outputs equal the original prefix; capacities never exceed the encoded count"]
+    c.finish(c.stat("c13_decodes"), c.extra["per_cfg"].get("distinct_nontrivial@rel", 0),
+             "(valid encoding, capacity) pairs: capacities {0,1,2,n/2,n-1,n,random, 127..129 and n-128 for block codecs}; output "
+             "is an exact-size heap block of `capacity` elements under ASan (malloc(0) for 0) and capacity + 4 KiB verified guard "
+             "elsewhere; non-trivial = capacity < n; counted on rel")
+
+
+def C16(tier):
+    c = Check("C16", tier)
+    n = sz(tier, 27 * 30_000, 27 * 800_000)
+    count = per_shard(n)
+    p = [4097, 4000]
+    run_workload(c, "meta-rel", "rel", "drv_array", "c16", count, params=p)
+    run_workload(c, "meta-asan", "asan", "drv_array", "c16", count, shards=[0, 1, 2, 3], params=p)
+    run_workload(c, "meta-msan", "msan", "drv_array", "c16", count, shards=[4, 5], params=p)
+    nf = sz(tier, 200_000, 5_000_000)
+    run_workload(c, "float-meta-rel", "rel", "drv_float", "c16", per_shard(nf))
+    run_workload(c, "float-meta-asan", "asan", "drv_float", "c16", per_shard(nf), shards=[0, 1])
+    c.require("facts_checked", c.stat("c16_facts_checked"), 1_000_000)
+    for k in ("c16_pfor_no_exceptions", "c16_pfor_one_exception", "c16_pfor_many_exceptions"):
+        c.require(k, c.stat(k), 100)
+    c.require("float_consumed_checks", c.stat("c16_float_consumed_checked"), 10000)
+    c.assumptions = ["in/out metadata structs (FOR encode, PFOR decode) are passed zeroed, as the API requires; output-only structs are poisoned with 0xEE before the call"]
+    c.finish(c.stat("cases"), c.extra["per_cfg"].get("distinct_nontrivial@rel", 0),
+             "every metadata-reporting codec variant on the array mixture with emphasis on counts whose tagged length changes "
+             "and multiples of 128; ground truth from the input, from a two-pattern diff of the destination (bytes actually "
+             "written) and from reference parsers of the documented layouts; distinct (codec,array) hash, non-trivial = "
+             "length>=2 and not all equal, on rel")
+
+
+def C06(tier):
+    c = Check("C06", tier)
+    n = sz(tier, 60_000, 1_500_000)
+    count = per_shard(n)
+    p = [sz(tier, 1500, 4097), sz(tier, 2500, 1500), 0]
+    run_workload(c, "adaptive-rel", "rel", "drv_array", "c06", count, params=p, timeout=3000)
+    run_workload(c, "adaptive-asan", "asan", "drv_array", "c06", count, shards=sz(tier, [0, 1, 2, 3], [0, 1, 2, 3]), params=p, timeout=3000)
+    run_workload(c, "adaptive-dbg", "dbg", "drv_array", "c06", count, shards=[4], params=p, timeout=3000)
+    # payloads over 1 MiB: forced DICT on 1.2e6 few-unique values (and one automatic case in the thorough tier)
+    run_workload(c, "adaptive-huge", "rel", "drv_array", "c06", 1, nshards=2, shards=sz(tier, [0], [0, 1]), params=[100, 0, 1], timeout=3000)
+    for leaf in ("DICT", "BITMAP", "DELTA", "PFOR", "FOR", "TAGGED"):
+        tot = sum(c.stat("leaf.%s.%s" % (leaf, d)) for d in ("ascending", "descending", "unsorted"))
+        c.require("leaf." + leaf, tot, 100)
+    c.require("leaf.DELTA.descending", c.stat("leaf.DELTA.descending"), 20)
+    c.require("sampled_uniqueness_path", c.stat("c06_sampled_uniqueness_path"), 10)
+    c.require("payload_over_1MiB", c.stat("c06_payload_over_1MiB"), 1)
+    c.require("distinct_leaf_guard_cells", c.stat("c06_distinct_leaf_guard_cells"), 30)
+    for f in ("DELTA", "FOR", "PFOR", "DICT", "BITMAP", "TAGGED"):
+        c.require("forced." + f, c.stat("adaptive.forced." + f), 500)
+    c.assumptions = ["forced BITMAP only for strictly increasing values below 65536; dictionary inputs <= 2^20 distinct values"]
+    c.finish(c.stat("c06_arrays"), c.extra["per_cfg"].get("distinct_nontrivial@rel", 0),
+             "arrays generated per decision-tree leaf and guard (unique ratio around 0.15/0.9, density around 0.05, count around "
+             "10000, ascending/descending/unsorted, one duplicate, maxValue 65535/65536, avgDelta around 1000 and minValue/10, "
+             "outlier ratio around 5%, range around 100n and near 2^64, PFOR marker ranges, periodic) plus the general mixture; "
+             "each array: automatic encode/decode, then each forced encoding whose domain contains it; leaf and guard outcomes "
+             "observed through meta.encodingType and varintAdaptiveAnalyze; distinct by array hash on rel")
+
+
+# --------------------------------------------------------------------------- C07
+def C07(tier):
+    c = Check("C07", tier)
+    n = sz(tier, 300_000, 12_000_000)
+    count = per_shard(n)
+    p = [sz(tier, 300, 600), 20000]
+    runs = [run_workload(c, "float-rel", "rel", "drv_float", "c07", count, params=p)]
+    runs.append(run_workload(c, "float-asan", "asan", "drv_float", "c07", count, shards=[0, 1, 2, 3], params=p))
+    runs.append(run_workload(c, "float-dbg", "dbg", "drv_float", "c07", count, shards=[4, 5], params=p))
+    runs.append(run_workload(c, "float-clang", "clang", "drv_float", "c07", count, shards=[6, 7, 8, 9], params=p))
+    c.compare_digests(runs, "encoded bytes of every float array")
+    for pr in ("FULL", "HIGH", "MEDIUM", "LOW"):
+        for m in ("INDEPENDENT", "COMMON_EXPONENT", "DELTA_EXPONENT"):
+            c.require("cell.%s.%s" % (pr, m), c.stat("cell.%s.%s" % (pr, m)), 10000)
+    c.require("arrays_with_carry_mantissas", c.stat("c07_arrays_with_carry_mantissas"), 1000)
+    c.require("arrays_spread_over_255", c.stat("c07_arrays_spread_over_255"), 1000)
+    for k in ("nan", "inf", "subnormal", "zero"):
+        c.require("special_" + k, c.stat("c07_special_" + k), 1000)
+    c.require("auto_requests", c.stat("c07_auto_requests"), 10000)
+    c.require("rounded_to_infinity", c.stat("c07_rounded_to_infinity"), 1)
+    c.assumptions = ["oracle is the published bound 2^-mantissa_bits (no reference quantiser: any rounding rule inside the bound is accepted)",
+                     "infinity accepted only when |x|(1+bound) > DBL_MAX"]
+    c.finish(c.stat("c07_arrays"), c.extra["per_cfg"].get("distinct_nontrivial@rel", 0),
+             "arrays of doubles built from bit fields (any exponent, same magnitude, carry mantissas 1.11..1, specials, one normal "
+             "among specials, sensor-like, extremes), each through all 4 precisions x 3 exponent modes and 3 EncodeAuto requests "
+             "(log-uniform and between-mode-bound values); distinct by array hash, non-trivial = has a normal value with a "
+             "non-zero mantissa; counted on rel")
